@@ -11,7 +11,9 @@ EnterOK(ev) ==
     IF v.pass
     THEN ev.r = "pass" \/ (foreign /\ ev.r = "block" /\ ev.bt \in {"flow", "isolation", "system", "cb", "hotspot"})
     ELSE /\ ev.r = "block"
-         /\ \/ ev.bt = "hotspot" /\ ev.rule = v.rule
+         \* the reported rule is the rejecting one: named by its id, or by the description its controller
+         \* was built from (an equal rule reloaded under another id keeps its controller and first id)
+         /\ \/ ev.bt = "hotspot" /\ (ev.rule = v.rule \/ (Has(ev, "rule_rec") /\ SameRule(ev.rule_rec, Rule(v.rule))))
             \/ foreign /\ ev.bt \in {"cb", "hotspot"}
 
 TraceInit == HotInit /\ l = 1
